@@ -1,5 +1,5 @@
 (* C07 -- one process-data cycle moves the whole image, each byte once, to the right place. *)
-From EC Require Import Base.Prelude Base.Bytes Cycle.Cycle Cycle.CycleProofs.
+From EC Require Import Base.Prelude Base.Bytes Cycle.Cycle Cycle.CycleProofs Cycle.CycleResults.
 Local Open Scope N_scope.
 
 (* For all three variants, every image, split, SubDevice list, logical start, frame size from the
@@ -63,6 +63,37 @@ Theorem c07_image_chunk : forall c img sent n data img',
     then nth (p - Nat.min sent (c_rlen c)) data 0 else nth p img 0.
 Proof. exact process_chunk_spec. Qed.
 Print Assumptions c07_image_chunk.
+
+(* the whole cycle: what a successful cycle leaves behind in terms of the datagrams it sent and the
+   answers they got ([pairs_of]: frame i was answered by resps[i]).  The image keeps its length and
+   its output part (from read_pdi_len on) is untouched; every input byte carried by an LRW datagram
+   holds what the network returned for that address (by c07_complete the LRW datagrams tile the whole
+   image, so this is every input byte); the working counter is the sum of the LRW answers' counters
+   modulo 2^16 (a checked build reports the overflow instead: known finding wkc-sum-overflow); the
+   state list is what the devices reported, in group order, cut at MAX_SUBDEVICES *)
+Theorem c07_results : forall c md v img resps st,
+  (c_len c <= length img)%nat ->
+  room_ok c (match v, c_dcref c with VSync, None => VPlain | _, _ => v end) ->
+  cycle c md v img resps = Ok st ->
+  let ps := pairs_of (l_frames st) resps in
+  length (l_img st) = length img /\
+  (forall p, (c_rlen c <= p)%nat -> nth p (l_img st) 0 = nth p img 0) /\
+  (forall a chunk data w q, In (DLrw a chunk, (data, w)) ps -> (q < length chunk)%nat ->
+     (off c a + q < c_rlen c)%nat -> nth (off c a + q) (l_img st) 0 = nth q data 0) /\
+  l_wkc st = wsum ps mod 65536 /\
+  l_states st = firstn (c_maxsd c) (states_of ps).
+Proof. exact cycle_results. Qed.
+Print Assumptions c07_results.
+
+(* non-vacuity: a 6-byte image (4 input bytes) in frames that carry 4 image bytes, two SubDevices *)
+Theorem c07_results_example :
+  let c := {| c_start := 4096; c_len := 6; c_rlen := 4; c_subs := [4097; 4098];
+              c_room := 16; c_maxsd := 16; c_dcref := None |} in
+  exists st, cycle c Debug VPlain [0; 0; 0; 0; 9; 8]
+                   [[([11; 12; 13; 14], 3)]; [([15; 16], 2)]; [([8; 0], 1)]; [([2; 0], 1)]] = Ok st /\
+             l_img st = [11; 12; 13; 14; 9; 8] /\ l_wkc st = 5 /\ l_states st = [8; 2].
+Proof. eexists. vm_compute. repeat split; reflexivity. Qed.
+Print Assumptions c07_results_example.
 
 (* per-cycle DC timing: offset = time mod period, wait = (period - offset) + shift, no overflow *)
 Theorem c07_cycle_info : forall md time period shift,
